@@ -45,13 +45,14 @@ var bodyPkgs = map[string]bool{
 	"github.com/shopspring/decimal": true,
 	"github.com/antlr4-go/antlr/v4": true,
 	"net/url": true, "path": true, "encoding/base64": true, "slices": true, "unicode/utf16": true,
-	"sort": true, "math/bits": true, "sync/atomic": true, "cmp": true, "maps": true,
+	"sort": true, "math/bits": true, "sync/atomic": true, "cmp": true, "maps": true, "container/list": true,
+	"golang.org/x/exp/slices": true,
 }
 
 var execStdPkgs = map[string]bool{
 	"time": true, "net/url": true, "path": true, "encoding/base64": true,
 	"strings": true, "strconv": true, "unicode": true, "slices": true, "sort": true, "cmp": true, "unicode/utf16": true,
-	"unicode/utf8": true, "math/bits": true, "sync/atomic": true, "maps": true,
+	"unicode/utf8": true, "math/bits": true, "sync/atomic": true, "maps": true, "container/list": true,
 }
 
 func (p *Program) isExecuted(pkgPath string) bool {
@@ -65,7 +66,7 @@ func (p *Program) isExecuted(pkgPath string) bool {
 
 // skipInit: packages whose init is not run (their globals are opaque).
 func (p *Program) skipInit(pkgPath string) bool {
-	if pkgPath == "github.com/shopspring/decimal" || pkgPath == "time" || pkgPath == "strconv" || pkgPath == "net/url" || pkgPath == "encoding/base64" || pkgPath == "unicode" {
+	if pkgPath == "github.com/shopspring/decimal" || pkgPath == "time" || pkgPath == "strconv" || pkgPath == "net/url" || pkgPath == "encoding/base64" || pkgPath == "unicode" || pkgPath == "github.com/antlr4-go/antlr/v4" {
 		return false
 	}
 	// every standard package whose functions run from source has its initialiser run too: their package-level tables
